@@ -276,6 +276,9 @@ def make_family(rng, kind):
             else:
                 y["cast"] = rng.choice([c for c in (None, "bool", "int") if c != y["cast"]])
             vs.append(y)
+        if rng.random() < 0.35:
+            # the rule's OWN path with a datum modifier: another rule (it judges the length / the keys of what is selected)
+            vs.append(dict(copy.deepcopy(x), pdt=rng.choice(["length", "map_keys", "dtype"])))
     else:
         x = [ruledrv.rule_recipe(rng, doc, cast_p=0.2, maxlen=2) for _ in range(rng.choice([1, 2, 2, 3]))]
         vs = [x, reorder_maps(copy.deepcopy(x)), [dict(r, cond=commute(r["cond"])) for r in x]]
